@@ -1,6 +1,6 @@
 // C28 wrappers: the real trie<int> / trieNode code from /repo
 #include <cstring>
-#include "/repo/src/occa/internal/utils/trie.cpp"
+#include "occa/internal/utils/trie.cpp"
 #include <occa/internal/utils/trie.hpp>
 #define VX extern "C" __attribute__((noinline))
 typedef occa::trie<int> T;
